@@ -12,7 +12,7 @@ import (
 func init() {
 	register(&propDef{
 		ID:       "C14",
-		Explain:  "Decided (structural necessary conditions): Target.Reset clears timestamp and metadata and regenerates the metadata leaves before its loop, and the loop deletes (unconditionally, Tree.Delete) and announces every child root other than the metadata root, announcing exactly the root it deleted; Cache.Remove forgets the target and then announces the whole-target delete, both inside the cache write lock; per-target isolation: Target has no field through which another Target or the Cache is reachable, Cache.Add gives every target a fresh tree/metadata/latency object, Target methods store only through their receiver (or objects they created), and each Cache entry point that takes a target name performs exactly one lookup with that name and acts on its result only; a delivered whole-target delete ends a single-target stream cleanly (errC <- nil), and isTargetDelete is true exactly for one delete, empty origin, path [\"*\"] (16-row table); metadata.Clear visits all three registries and ResetEntry has an arm per kind. Also decided: Cache.Reset calls Target.Reset while holding Cache.mu (a concurrent Remove/Add cannot interleave with the reset's announcements); Metadata.Clear changes values only through ResetEntry, and ResetEntry applies each string entry's policy (DefaultValue => \"\", Delete => removed, Keep => untouched). Round-4 additions: the all-targets query runs every per-target Tree.Query under Cache.mu (a Remove cannot complete in the middle of the walk); a stream registers before it walks (C04.reg-before-walk, borrowed), so the announcements of a Reset/Remove reach it.",
+		Explain:  "Decided (structural necessary conditions): Target.Reset clears timestamp and metadata and regenerates the metadata leaves before its loop, and the loop deletes (unconditionally, Tree.Delete) and announces every child root other than the metadata root, announcing exactly the root it deleted; Cache.Remove forgets the target and then announces the whole-target delete, both inside the cache write lock; per-target isolation: Target has no field through which another Target or the Cache is reachable, Cache.Add gives every target a fresh tree/metadata/latency object, Target methods store only through their receiver (or objects they created), and each Cache entry point that takes a target name performs exactly one lookup with that name and acts on its result only; a delivered whole-target delete ends a single-target stream cleanly (errC <- nil), and isTargetDelete is true exactly for one delete, empty origin, path [\"*\"] (16-row table); metadata.Clear visits all three registries and ResetEntry has an arm per kind. Also decided: Cache.Reset calls Target.Reset while holding Cache.mu (a concurrent Remove/Add cannot interleave with the reset's announcements); Metadata.Clear changes values only through ResetEntry, and ResetEntry applies each string entry's policy (DefaultValue => \"\", Delete => removed, Keep => untouched). Round-4 additions: the all-targets query runs every per-target Tree.Query under Cache.mu (a Remove cannot complete in the middle of the walk); a stream registers before it walks (C04.reg-before-walk, borrowed), so the announcements of a Reset/Remove reach it. Round-5 addition: generateMetaUpdates rewrites every metadata leaf whose stored value differs from the current value, for each of the three registries, whether or not the leaf already exists (a Reset's 'not synced / not connected' reaches queries and the feed).",
 		NotCover: "that Delete([root]) removes all leaves below the root (ctree semantics, C09), the metadata values after reset beyond Clear's structure, the package-level metadata registries shared by design",
 		Run:      runC14,
 	})
